@@ -397,7 +397,7 @@ def gen_softmax(tier, rng):
             for axis in range(-rank, rank):
                 for op, f in (('softmax', ref.softmax), ('softmin', ref.softmin)):
                     out = f(xa, axis)
-                    yield Case('%s xs=%s x=%s axis=%d' % (op, fmt(shape), fdata(x), axis), H_NORM, oracle=fres(out), model=False,
+                    yield Case('%s xs=%s x=%s axis=%d' % (op, fmt(shape), fdata(x), axis), H_NORM, oracle=fres(out),
                                nontrivial=shape[axis] > 1, tags=[op, 'rank=%d' % rank, 'axis<0' if axis < 0 else 'axis>=0'],
                                cmp=close_cmp(shape[axis] + 4, 1.0))
 
@@ -418,7 +418,7 @@ def gen_norms(tier, rng):
             m = reals8(rng, C, -8, 8); v = [abs(t) + 0.125 for t in reals8(rng, C, 0, 16)]; w = reals8(rng, C, -8, 8); b = reals8(rng, C, -8, 8)
             out = ref.batch_norm(xa, m, v, w, b)
             yield Case('batch_norm xs=%s x=%s ms=%d m=%s vs=%d v=%s ws=%d w=%s bs=%d b=%s' % (fmt(shape), fdata(x), C, fdata(m), C, fdata(v), C, fdata(w), C, fdata(b)),
-                       H_NORM, oracle=fres(out), model=False, tags=['batch_norm', 'rank=%d' % rank], dom=(rank == 4),
+                       H_NORM, oracle=fres(out), tags=['batch_norm', 'rank=%d' % rank], dom=(rank == 4),
                        cmp=close_cmp(8, (max(abs(t) for t in x) + 1) / math.sqrt(0.125) * 1 + 1))
             # layer_norm over the last k axes
             for k in range(1, rank + 1):
@@ -429,20 +429,20 @@ def gen_norms(tier, rng):
                 w = reals8(rng, wn, -8, 8); b = reals8(rng, wn, -8, 8)
                 out = ref.layer_norm(xa, np.array(w).reshape(wshape), np.array(b).reshape(wshape))
                 yield Case('layer_norm xs=%s x=%s ws=%s w=%s bs=%s b=%s' % (fmt(shape), fdata(x), fmt(wshape), fdata(w), fmt(wshape), fdata(b)),
-                           H_NORM, oracle=fres(out), model=False, tags=['layer_norm', 'rank=%d' % rank, 'k=%d' % k],
+                           H_NORM, oracle=fres(out), tags=['layer_norm', 'rank=%d' % rank, 'k=%d' % k],
                            cmp=close_cmp(wn + 8, norm_mag(x, w, b, 0)))
             w = reals8(rng, C, -8, 8); b = reals8(rng, C, -8, 8)
             # instance_norm: (N, C, *spatial) with nd = rank-2
             if rank >= 3:
                 out = ref.instance_norm(xa, w, b)
                 yield Case('instance_norm xs=%s x=%s ws=%d w=%s bs=%d b=%s nd=%d' % (fmt(shape), fdata(x), C, fdata(w), C, fdata(b), rank - 2),
-                           H_NORM, oracle=fres(out), model=False, tags=['instance_norm', 'rank=%d' % rank],
+                           H_NORM, oracle=fres(out), tags=['instance_norm', 'rank=%d' % rank],
                            cmp=close_cmp(prod(shape[2:]) + 8, norm_mag(x, w, b, 0)))
             # group_norm with every divisor of C
             for G in divisors(C):
                 out = ref.group_norm(xa, G, w, b)
                 yield Case('group_norm xs=%s x=%s ws=%d w=%s bs=%d b=%s groups=%d' % (fmt(shape), fdata(x), C, fdata(w), C, fdata(b), G),
-                           H_NORM, oracle=fres(out), model=False, tags=['group_norm', 'rank=%d' % rank, 'G=%d' % G],
+                           H_NORM, oracle=fres(out), tags=['group_norm', 'rank=%d' % rank, 'G=%d' % G],
                            cmp=close_cmp(prod(shape[1:]) // G + 8, norm_mag(x, w, b, 0)))
 
 
@@ -459,7 +459,7 @@ def gen_linear(tier, rng):
             for bias in (None, rints(rng, O, -9, 9)):
                 out = ref.linear(np.array(x, dtype=object).reshape(xs), np.array(w, dtype=object).reshape(O, I), bias)
                 yield Case('linear dt=%s xs=%s x=%s ws=%d,%d w=%s b=%s%s' % (dt, fmt(xs), fmt(x), O, I, fmt(w), 'None' if bias is None else fmt(bias), '' if bias is None else ' bs=%d' % O),
-                           H_LIN, oracle=fres(out), model=False, tags=['linear', 'rank=%d' % rank, 'bias' if bias else 'nobias', 'dt=' + dt])
+                           H_LIN, oracle=fres(out), tags=['linear', 'rank=%d' % rank, 'bias' if bias else 'nobias', 'dt=' + dt])
             # bilinear
             as_, bs_ = lead + [I], lead + [J]
             a = rints(rng, prod(as_), -3, 3); b = rints(rng, prod(bs_), -3, 3); w = rints(rng, O * I * J, -3, 3)
@@ -488,21 +488,21 @@ def gen_linear(tier, rng):
             mag = dmax + 1e-6
             if rep % 2 == 0:
                 out = ref.pairwise_distance(aa, ba)
-                yield Case('pairwise_distance as=%s a=%s bs=%s b=%s form=default' % (fmt(sa), fdata(a), fmt(sb), fdata(b)), H_LIN, oracle=fres(out), model=False,
+                yield Case('pairwise_distance as=%s a=%s bs=%s b=%s form=default' % (fmt(sa), fdata(a), fmt(sb), fdata(b)), H_LIN, oracle=fres(out),
                            tags=['pairwise_distance', 'rank=%d' % rank, 'default'] + (['equal-operands'] if rep % 5 == 3 else []), cmp=close_cmp(D + 6, mag * D))
             else:
                 ordv = rng.randint(1, 3); kd = rng.randint(0, 1)
                 out = ref.pairwise_distance(aa, ba, ordv, 1e-6, bool(kd))
                 yield Case('pairwise_distance as=%s a=%s bs=%s b=%s ord=%d eps=0.000001 keepdims=%d' % (fmt(sa), fdata(a), fmt(sb), fdata(b), ordv, kd), H_LIN,
-                           oracle=fres(out), model=False, tags=['pairwise_distance', 'rank=%d' % rank, 'ord=%d' % ordv, 'keepdims=%d' % kd] + (['equal-operands'] if rep % 5 == 3 else []),
+                           oracle=fres(out), tags=['pairwise_distance', 'rank=%d' % rank, 'ord=%d' % ordv, 'keepdims=%d' % kd] + (['equal-operands'] if rep % 5 == 3 else []),
                            cmp=close_cmp(D + 6, mag * D))
             if rank >= 2 and rep % 2 == 0:
                 out = ref.cosine_similarity(aa, ba)
-                yield Case('cosine_similarity as=%s a=%s bs=%s b=%s form=default' % (fmt(sa), fdata(a), fmt(sb), fdata(b)), H_LIN, oracle=fres(out), model=False,
+                yield Case('cosine_similarity as=%s a=%s bs=%s b=%s form=default' % (fmt(sa), fdata(a), fmt(sb), fdata(b)), H_LIN, oracle=fres(out),
                            tags=['cosine_similarity', 'rank=%d' % rank, 'default'], cmp=close_cmp(sa[1] + 8, 1.0))
             for axis in range(-rank, rank):
                 out = ref.cosine_similarity(aa, ba, axis)
-                yield Case('cosine_similarity as=%s a=%s bs=%s b=%s axis=%d' % (fmt(sa), fdata(a), fmt(sb), fdata(b), axis), H_LIN, oracle=fres(out), model=False,
+                yield Case('cosine_similarity as=%s a=%s bs=%s b=%s axis=%d' % (fmt(sa), fdata(a), fmt(sb), fdata(b), axis), H_LIN, oracle=fres(out),
                            tags=['cosine_similarity', 'rank=%d' % rank, 'axis=%d' % axis], cmp=close_cmp(sa[axis] + 8, 1.0))
 
 
